@@ -4,7 +4,7 @@ import (
 	"fmt"
 	"time"
 
-	"github.com/rulego/streamsql/utils/simrt"
+	"verif.local/simrt"
 )
 
 // C01, processing-time variant: every row contributes to exactly one emitted result, for its
